@@ -12,6 +12,16 @@ PROP = {  # commit subject prefix -> (property, what failed)
     "fix: the Python printer parenthesises operands": ("C10", "'(2 + 3) * 4' printed as '2 + 3 * 4'; 61 050 of 95 450 enumerated trees/sources lost their structure"),
     "fix: a nullable type argument stays nullable": ("C20", "List[Int?] (and Set/Tuple/Dict/Collection with a nullable argument) was not assignable to itself"),
     "fix: a union that contains None or a nullable member": ("C20", "(A | B) | None = {A?, B?} but A | (B | None) = {A, B?}: union not associative, results not mutually assignable"),
+    "fix: a function's last expression is returned": ("C01", "'def f(x: Int) -> Int => x + 1' returned None when annotate is off (the CLI default): 268 of 2821 quick-tier programs behaved differently from the reference; also the C11 coupling of annotate and control flow"),
+    "fix: expressions interpolated in a string": ("C01", "'\"{a ^ b}\"' was emitted verbatim as f\"{a ^ b}\" (xor), '{a mod b}' / '{a = b}' as invalid Python"),
+    "fix: reassigning a variable from an if or match": ("C02", "'x := if c then a else b' (block-shaped or untyped if) was emitted as 'x = if c: ...', which Python refuses"),
+    "fix: a line break inside a string literal": ("C02", "'def x := \"a<LF>b\"' emitted as an unterminated single-quoted Python literal (696 of 2222 enumerated string bodies)"),
+    "fix: a block of which nothing remains": ("C02", "a comment-only body of a function/branch/loop/arm emitted as an empty suite"),
+    "fix: leading zeros are stripped": ("C02", "'def x := 007' emitted verbatim (320 literal-shape cases)"),
+    "fix: statements that are not expressions are never wrapped": ("C02", "a function with return type ending in a loop emitted 'return while ...:'"),
+    "fix: literal braces of an interpolated string": ("C02", "'\"{}{a}\"' and '\"{a}\\{\"' emitted as invalid f-strings"),
+    "fix: a definition or assignment that ends a function body": ("C02", "'def h() -> Int => <newline> def r: Int := match ...' emitted 'return r: int = 4'"),
+    "fix: an escaped backslash does not escape": ("C02", "'\"\\\\\"\"' (escaped backslash before the closing quote) lexed past its end; emitted literal unterminated"),
 }
 def main():
     data = json.load(open(P)) if os.path.exists(P) else {"findings": []}
